@@ -186,6 +186,36 @@ def main():
                 dist("interfering" if any(g[1] or g[2] for g in gaps) else "no-overlap")
                 out["cases"].append({"exp": pa, "b": pb, "plan": plan, "gaps": gaps, "res": ra, "solo": sres,
                                      "b_ok": rbs[0] == sb, "b_res": rbs[0], "b_solo": sb})
+    # ---- forward-mode differentiations with DIFFERENT tangents open at the same time in two threads (the model's Deriv
+    #      always seeds 1, so a tangent travelling from one thread to the other is invisible there) ----
+    import autograd.numpy as anp
+    from autograd import make_jvp as _mj, grad as _gr
+    out["extra_bad"] = []
+    progs2 = [("cube", lambda z: z * z * z, 2.0, lambda x, v: 3 * x * x * v), ("square", lambda z: z * z, 5.0, lambda x, v: 2 * x * v),
+              ("hvp", lambda z: _gr(lambda w: w * w * w * w)(z), 3.0, lambda x, v: 12 * x * x * v),
+              ("nested", lambda z: z * _mj(lambda w: w * w * z)(z)(2.0)[1], 2.0, lambda x, v: 12 * x * x * v)]
+    for (na_, fa, xa, ta), (nb_, fb, xb, tb) in itertools.permutations(progs2, 2):
+        for va, vb in ((3.0, 0.5), (1.0, -2.0), (4.0, 4.0)):
+            in_a, in_b = threading.Event(), threading.Event()
+            res = {}
+
+            def run(tag, f, x, v, mine, other):
+                def g(z):
+                    mine.set()
+                    other.wait(5)            # both differentiations are open now
+                    return f(z)
+                try:
+                    res[tag] = float(_mj(g)(x)(v)[1])
+                except Exception as ex:
+                    res[tag] = "raised " + repr(ex)
+            th1 = threading.Thread(target=run, args=("A", fa, xa, va, in_a, in_b), daemon=True)
+            th2 = threading.Thread(target=run, args=("B", fb, xb, vb, in_b, in_a), daemon=True)
+            th1.start(); th2.start(); th1.join(20); th2.join(20)
+            dist("two-threads-forward-tangents")
+            want = {"A": float(ta(xa, va)), "B": float(tb(xb, vb))}
+            if res != want:
+                out["extra_bad"].append({"exp": "A: make_jvp(%s)(%r)(%r), B: make_jvp(%s)(%r)(%r), both open at once" % (na_, xa, va, nb_, xb, vb),
+                                         "plan": {}, "gaps": [], "res": res, "solo": want, "b_ok": False, "b": nb_})
     print(json.dumps(out))
 
 
